@@ -445,6 +445,37 @@ void run_typed(const Plan& p) {
   delete d;
 }
 
+// A promise that is the only owner of the shared state (no future copy kept),
+// callbacks registered through the promise, and a callback in the middle of the
+// chain that drops that owner (frees the object holding the promise, or re-arms
+// it with a fresh one) while set_value() is still running the chain: the
+// callbacks after it must still see the value (Promise::set_value keeps the
+// state alive for the duration of the call).
+void run_lonely(int mode) {
+  struct Holder { babylon::Promise<std::string> pr; };
+  Holder* h = new Holder();
+  const std::string expect = S->sval + std::string(40, 'x');
+  int seen = 0;
+  auto check = [&](const std::string& v, const char* who) {
+    if (v != expect) fail("value", "callback-after-owner-dropped", "the %s callback of a promise whose owner was dropped by an earlier callback read a wrong value", who);
+    seen++;
+  };
+  h->pr.on_finish([&](std::string& v) { check(v, "last"); });        // registered first: runs last
+  h->pr.on_finish([&](std::string& v) {
+    check(v, "dropping");
+    if (mode == 1) { delete h; h = nullptr; probe("owner_freed_in_callback"); }
+    else { h->pr = babylon::Promise<std::string>(); probe("promise_rearmed_in_callback"); }
+    yield_point();
+  });
+  h->pr.on_finish([&](std::string& v) { check(v, "first"); });       // runs first
+  set_crash_site("set_value-owner-dropped-in-callback");
+  std::thread setter([&] { h->pr.set_value(expect); });
+  setter.join();
+  set_crash_site(nullptr);
+  if (seen != 3) fail("callback-count", "owner-dropped", "%d of 3 callbacks ran when the owner of the promise was dropped inside the chain", seen);
+  delete h;
+}
+
 void run(const Plan& p) {
   uint64_t live0 = sim::heap_live_blocks();
   S = new State();
@@ -459,6 +490,7 @@ void run(const Plan& p) {
       if (op.kind == K_COUNT_DOWN) S->latch_n += (size_t)std::max<int64_t>(1, std::min<int64_t>(op.a, 2));
     }
   if (S->vt != VT_LATCH && nset == 0) sim::skip("no-setter");
+  if (p.get("lonely", 0)) run_lonely((int)p.get("lonely", 1));
   switch (S->vt) {
     case VT_INT: run_typed<int, babylon::SchedInterface>(p); break;
     case VT_STRING: run_typed<std::string, babylon::SchedInterface>(p); break;
@@ -485,6 +517,7 @@ void gen(Rng& r, Plan& p, const GenParams& gp) {
   p.cfg["vt"] = vt;
   p.cfg["val"] = (int64_t)(r.next() >> 8);
   p.cfg["ovf"] = r.chance(1, 5);
+  p.cfg["lonely"] = r.chance(1, 8) ? (int64_t)r.range(1, 2) : 0;
   int opid = 0;
   auto add = [&](int t, int kind, int64_t a = 0, int64_t b = 0) {
     if ((size_t)t >= p.threads.size()) p.threads.resize((size_t)t + 1);
